@@ -234,8 +234,12 @@ var shiftCorners = []shiftCorner{
 	{"zero", func(k, n *big.Int) *big.Int { return new(big.Int) }},
 	{"equal-scalar", func(k, n *big.Int) *big.Int { return new(big.Int).Set(k) }},
 	{"negated-scalar", func(k, n *big.Int) *big.Int { return new(big.Int).Sub(n, k) }},
-	{"negated+1", func(k, n *big.Int) *big.Int { return new(big.Int).Mod(new(big.Int).Add(new(big.Int).Sub(n, k), one), n) }},
-	{"negated-1", func(k, n *big.Int) *big.Int { return new(big.Int).Mod(new(big.Int).Sub(new(big.Int).Sub(n, k), one), n) }},
+	{"negated+1", func(k, n *big.Int) *big.Int {
+		return new(big.Int).Mod(new(big.Int).Add(new(big.Int).Sub(n, k), one), n)
+	}},
+	{"negated-1", func(k, n *big.Int) *big.Int {
+		return new(big.Int).Mod(new(big.Int).Sub(new(big.Int).Sub(n, k), one), n)
+	}},
 	{"n", func(k, n *big.Int) *big.Int { return new(big.Int).Set(n) }},
 	{"n+1", func(k, n *big.Int) *big.Int { return new(big.Int).Add(n, one) }},
 	{"n-1", func(k, n *big.Int) *big.Int { return new(big.Int).Sub(n, one) }},
